@@ -35,7 +35,8 @@ class LayerWorld(World):
         kind = rc.choice(["serial", "biclique", "biclique", "recurrent"])
         dt = rc.choice(DTS)
         B = rc.choice([1, 1, 2, 3])
-        cfg = {"kind": kind, "dt": dt, "B": B, "wseed": rc.randrange(1 << 30), "adaptive": rc.random() < 0.4}
+        cfg = {"kind": kind, "dt": dt, "B": B, "wseed": rc.randrange(1 << 30), "adaptive": rc.random() < 0.4,
+               "updaters": stream(seed, "updaters").random() < 0.4}       # trainable connections: an updater is attached (nothing is ever accumulated)
         # adaptation is frozen either by eval mode or, in training mode, by adapt=False handed through the layer's neuron kwargs
         cfg["freeze"] = "kwargs" if (cfg["adaptive"] and rc.random() < 0.6) else "eval"
 
@@ -92,6 +93,8 @@ class LayerWorld(World):
             if delay is not None:
                 kw["delay_init"] = lambda x, i=i, k=c["delay_k"]: (torch.randint(0, k + 1, tuple(x.shape), generator=torch.Generator().manual_seed(ws + 7 * i + 2)).float() * dt)
             conns.append(nn_.LinearDense((c["in"],), (c["out"],), dt, **kw))
+            if cfg.get("updaters"):
+                conns[-1].updater = conns[-1].defaultupdater()
         for j, n in enumerate(cfg["neurons"]):
             if cfg["adaptive"]:
                 neurons.append(nn_.ALIF((n,), dt, rest_v=-60.0, reset_v=-65.0, thresh_eq_v=-50.0, refrac_t=2 * dt, tc_membrane=8.0 + j,
